@@ -91,8 +91,9 @@ func shapes() []shape {
 			return prog("var f func(" + params + ") int\n\nfunc main() {\n\tprintln(f == nil)\n}\n"), "true\n"
 		}},
 		{name: "string-constants", limit: 256, gen: func(n int) (string, string) {
-			stmts := joinN(n, func(i int) string { return fmt.Sprintf("\tt = t + len(z + \"s%04d\")\n", i) }, "")
-			return prog("var z string\n\nfunc main() {\n\tt := 0\n" + stmts + "\tprintln(t)\n}\n"), fmt.Sprintf("%d\n", 5*n)
+			// constants of different lengths: two constants that share an index change the sum
+			stmts := joinN(n, func(i int) string { return fmt.Sprintf("\tt = t + len(z + \"s%04d%s\")\n", i, strings.Repeat("x", i%13)) }, "")
+			return prog("var z string\n\nfunc main() {\n\tt := 0\n" + stmts + "\tprintln(t)\n}\n"), fmt.Sprintf("%d\n", 5*n+sumMod13(n))
 		}},
 		{name: "int-constants", limit: 16384, gen: func(n int) (string, string) {
 			stmts := joinN(n, func(i int) string { return fmt.Sprintf("\tt = t + %d\n", 100000+i) }, "")
@@ -118,16 +119,23 @@ func shapes() []shape {
 		}},
 		{name: "field-indexes", limit: 256, gen: func(n int) (string, string) {
 			fields := joinN(n, func(i int) string { return fmt.Sprintf("\tF%d int\n", i) }, "")
-			stmts := joinN(n, func(i int) string { return fmt.Sprintf("\ts.F%d = %d\n\tt = t + s.F%d\n", i, i, i) }, "")
-			return prog("type S struct {\n" + fields + "}\n\nfunc main() {\n\tvar s S\n\tt := 0\n" + stmts + "\tprintln(t)\n}\n"), fmt.Sprintf("%d\n", sumTo(n))
+			// every field is written before any field is read: two field
+			// paths that share an index are seen as one lost write
+			writes := joinN(n, func(i int) string { return fmt.Sprintf("\ts.F%d = %d\n", i, i+1) }, "")
+			reads := joinN(n, func(i int) string { return fmt.Sprintf("\tt = t*3 + s.F%d\n", i) }, "")
+			want := 0
+			for i := 0; i < n; i++ {
+				want = want*3 + i + 1
+			}
+			return prog("type S struct {\n" + fields + "}\n\nfunc main() {\n\tvar s S\n\tt := 0\n" + writes + reads + "\tprintln(t)\n}\n"), fmt.Sprintf("%d\n", want)
 		}},
 		{name: "native-functions", limit: 256, native: true, gen: func(n int) (string, string) {
 			stmts := joinN(n, func(i int) string { return fmt.Sprintf("\tt = t + nat.F%d()\n", i) }, "")
 			return prog("import \"nat\"\n\nfunc main() {\n\tt := 0\n" + stmts + "\tprintln(t)\n}\n"), fmt.Sprintf("%d\n", sumTo(n))
 		}},
 		{name: "template-string-constants", limit: 256, tmpl: true, gen: func(n int) (string, string) {
-			stmts := joinN(n, func(i int) string { return fmt.Sprintf("{%% t = t + len(z + \"s%04d\") %%}", i) }, "\n")
-			return "{% var t = 0 %}{% var z = \"\" %}\n" + stmts + "\n[{{ t }}]", fmt.Sprintf("[%d]", 5*n)
+			stmts := joinN(n, func(i int) string { return fmt.Sprintf("{%% t = t + len(z + \"s%04d%s\") %%}", i, strings.Repeat("x", i%13)) }, "\n")
+			return "{% var t = 0 %}{% var z = \"\" %}\n" + stmts + "\n[{{ t }}]", fmt.Sprintf("[%d]", 5*n+sumMod13(n))
 		}},
 		{name: "template-int-locals", limit: 127, tmpl: true, gen: func(n int) (string, string) {
 			decl := joinN(n, func(i int) string { return fmt.Sprintf("{%% v%d := z + %d %%}", i, i) }, "\n")
@@ -141,6 +149,14 @@ func shapes() []shape {
 			return macros + "\n[" + calls + "]", "[" + want + "]"
 		}},
 	}
+}
+
+func sumMod13(n int) int {
+	t := 0
+	for i := 0; i < n; i++ {
+		t += i % 13
+	}
+	return t
 }
 
 func shapeByName(name string) *shape {
